@@ -365,7 +365,7 @@ func TestC29Delivery(t *testing.T) {
 			"Oracle: every object delivered at a device port is a packetization.AssembledMsg whose MsgMeta equals a sent message's (all six fields) and whose Dst is that port, at most once per ID; "+
 			"liveness (mesh, and every topology whose switch multigraph is a tree): when the engine is idle every message was delivered and every script fully sent. "+
 			"Checkpoint leg (1 case in 3, classes 'ckpt:*'): the same network + devices (modeling.Components whose whole state - script, position, counters - is plain-JSON State) + traffic are built again, run to a cut, saved and torn down; another process (re-exec of the test binary, replaced every 40 jobs) builds the same assembly again from the case, schedules nothing, loads, runs until idle. "+
-			"1 in 8 of these (class 'ckpt:simulation.Simulation/*') inside a real simulation.Simulation (connector registrar = the simulation; default registration or, 50%, without the idle DBTracer hooks) with Simulation.SaveCheckpoint/LoadCheckpoint; the others (class 'ckpt:entity-level') on a registrar that keeps the inventory a Simulation keeps (engine, ID generator, every component/port/connection in registration order) and, like Simulation.Save/LoadCheckpoint, lets every entity write/read its own payload through its SaveCheckpoint/LoadCheckpoint after checking that the saved and rebuilt entity sets are equal (no archive file, no recorders: building+terminating a Simulation costs 100-300 ms). "+
+			"1 in 10 of these (class 'ckpt:simulation.Simulation/*') inside a real simulation.Simulation (connector registrar = the simulation; default registration or, 50%, without the idle DBTracer hooks) with Simulation.SaveCheckpoint/LoadCheckpoint; the others (class 'ckpt:entity-level') on a registrar that keeps the inventory a Simulation keeps (engine, ID generator, every component/port/connection in registration order) and, like Simulation.Save/LoadCheckpoint, lets every entity write/read its own payload through its SaveCheckpoint/LoadCheckpoint after checking that the saved and rebuilt entity sets are equal (no archive file, no recorders: building+terminating a Simulation costs 100-300 ms). "+
 			"The cut is one of the uninterrupted run's own event times (RunUntil(t) handles all events <= t): 3 in 4 drawn among the instants at which some endpoint's State.AssemblingMsgs holds a message with some but not all flits arrived (measured again at the cut in the simulation: class 'ckpt:cut-mid-reassembly'), 1 in 4 among all event times. "+
 			"The same oracle judges the device-port events before the cut followed by those after the resume (exactly once, six metadata fields, right port, nothing else; everything delivered and every script finished for mesh/tree), plus: devices retrieved exactly the delivered messages. "+
 			"Additionally (signature prefix 'ckpt-vs-uninterrupted:', C06's promise for this assembly rather than C29's): the same set of messages is delivered, every device port sees the same sequence of sends/deliveries at the same virtual times, and the engine goes idle at the same time as in the uninterrupted run. "+
